@@ -190,6 +190,58 @@ func ruleQ1(c *Ctx, id string) {
 			}
 		}
 	}
+	// Get answers from the journal and from nothing else: every return is preceded by the read, every value it
+	// hands out comes from that read, and the block read is the key's
+	if len(rb) == 1 {
+		isRB := func(in ssa.Instruction) bool { return in == rb[0] }
+		okAll, okVal, nVal := true, true, 0
+		for _, b := range get.Blocks {
+			if r, isR := b.Instrs[len(b.Instrs)-1].(*ssa.Return); isR && !MustBefore(get, isRB)(r) {
+				okAll = false
+			}
+		}
+		// produced by the read: the read's buffer, or a clone of its Data
+		fromReadV := func(v ssa.Value) bool {
+			n := 0
+			for src := range bwdSources(v) {
+				cl, isC := src.(*ssa.Call)
+				if !isC {
+					continue
+				}
+				n++
+				if cl == rb[0].(*ssa.Call) {
+					continue
+				}
+				if cal := cl.Call.StaticCallee(); cal != nil && cal.Name() == "CloneByteSlice" {
+					if nm, fl, base, _ := loadedField(argN(cl, 0)); nm != nil && fl == "Data" && base == ssa.Value(rb[0].(*ssa.Call)) {
+						continue
+					}
+				}
+				return false
+			}
+			return n > 0
+		}
+		for _, sc := range scopesOf(get) {
+			for _, b := range sc.Fn.Blocks {
+				for _, in := range b.Instrs {
+					if st, ok := in.(*ssa.Store); ok && fieldPath(st.Addr) == "Val" {
+						nVal++
+						if !fromReadV(st.Val) {
+							okVal = false
+						}
+					}
+				}
+			}
+		}
+		R.Check(okAll && okVal && nVal > 0, id, "kvs.Get|answers from the journal only", P.Pos(rb[0].Pos()), "every return of Get follows the journal read, and every value it returns flows from that read", fmt.Sprintf("must-precede at every return; %d result stores, all from the read", nVal), "Get can answer without reading the journal (a cache, a 'never written' shortcut): such an answer is not ordered with the multi-puts by the journal - a stale or half-applied value can be returned for ever, and after a restart durable keys read as empty")
+		okKey := false
+		if ac, isA := stripConv(argN(rb[0], 0)).(*ssa.Call); isA && ac.Call.StaticCallee() != nil && ac.Call.StaticCallee().Name() == "MkAddr" && len(ac.Call.Args) == 2 {
+			pm, isP := stripConv(ac.Call.Args[0]).(*ssa.Parameter)
+			off, isk := constInt(stripConv(ac.Call.Args[1]))
+			okKey = isP && pm.Parent() == get && isk && off == 0
+		}
+		R.Check(okKey, id, "kvs.Get|reads the block of its key", P.Pos(rb[0].Pos()), "the journal read is at addr.MkAddr(key, 0)", "the key parameter, offset 0", "Get reads another block than the one MultiPut writes for the key")
+	}
 	R.Check(cloned, id, "kvs.Get|returns a copy", P.Pos(get.Pos()), "the value returned is a clone of the journal's buffer", "CloneByteSlice(buf.Data) stored in the result", "the caller receives the journal's own buffer: later puts change a value already returned")
 }
 
